@@ -278,3 +278,38 @@ def func_units(scaled):
 
 func_units(False)
 func_units(True)
+
+
+@unit("C13.keep_rows", ["C13", "C11"], ["pygradflow.util.keep_rows"], config={"max_paths": 20})
+def keep_rows(u):
+    """keep_rows(M, f): the stored entries of the result are exactly the stored entries of M whose row is kept
+    (order and multiplicity preserved), same shape; M itself is not modified.  (The entrywise reading
+    result[i,j] = f[i] ? M[i,j] : 0 follows by lemma LA1: a sub-family of the stored entries sums to the kept part.)"""
+    from .c04_transform import StoreLog
+
+    m, n = u.int("m"), u.int("n")
+    u.assume(z3.And(m >= 0, n >= 0))
+    fmt = ["coo", "csr", "csc"][u.path.choose_n(3, "format")]
+    M = matmodel.user_matrix(u.it, m, n, "M", fmt=fmt)
+    nnz, row0, col0, data0 = M.coo[0], M.coo[1].vec(), M.coo[2].vec(), M.coo[3].vec()
+    f = u.vec("row_filter", m, kind="bool", region="USER")
+    fv = V(f)
+    log = StoreLog(u)
+    R = u.call("pygradflow.util.keep_rows", M, f)
+    if R is M:
+        u.ensure(QAll(m, lambda i: fv.f(i)), "matrix_returned_unchanged_only_when_every_row_is_kept")
+        return
+    u.ensure(R.rows is m and R.cols is n or (R.rows == m and R.cols == n), "same_shape")
+    cnt, row, col, data = R.coo[0], R.coo[1].vec(), R.coo[2].vec(), R.coo[3].vec()
+    sel = getattr(R, "selection", None)
+    u.ensure(sel is not None, "result_is_a_selection_of_the_stored_entries")
+    if sel is None:
+        return
+    iv, mask = sel
+    u.ensure(QAll(cnt, lambda k: z3.And(iv.f(k) >= 0, iv.f(k) < nnz, row.f(k) == row0.f(iv.f(k)), col.f(k) == col0.f(iv.f(k)), data.f(k) == data0.f(iv.f(k)), fv.f(row0.f(iv.f(k))))), "every_result_entry_is_a_stored_entry_of_a_kept_row")
+    u.ensure(QAll(cnt, lambda a: QAll(cnt, lambda b: z3.Implies(a < b, iv.f(a) < iv.f(b)))), "order_and_multiplicity_preserved")
+    inv = iv.inverse
+    u.ensure(QAll(nnz, lambda q: z3.Implies(fv.f(u.path.index_term(row0.f(q), m)), z3.And(inv[1](q) >= 0, inv[1](q) < cnt, iv.f(inv[1](q)) == q))), "every_stored_entry_of_a_kept_row_is_in_the_result")
+    u.ensure(QAll(nnz, lambda q: M.coo[3].vec().f(q) == data0.f(q)), "argument_not_modified", props=["C11"])
+    log.check()
+    u.cover("end")
